@@ -11,7 +11,7 @@ from vlib.runner import Part, Violation, ddmin_list
 import pymemcache.client.hash as H
 from pymemcache.client.hash import HashClient
 from pymemcache.client.rendezvous import RendezvousHash
-from pymemcache.exceptions import MemcacheError
+from pymemcache.exceptions import MemcacheClientError, MemcacheError
 
 PROPERTY = "C13"
 LEVEL = "exploration"
@@ -221,6 +221,8 @@ def check(case):
             env = Env(addrs=servers)
             for srv_ in env.servers:
                 srv_.refuse.update({ns_key(names, n_).encode(): "not-stored" for n_ in names})
+                if case.get("dialect"):
+                    srv_.dialect = set(case["dialect"])          # e.g. a server that hangs up after every error line it sends
             env.clock = clock
             for s in env.servers:
                 s.clock = clock
@@ -302,6 +304,15 @@ def _run(case, hc, servers, names, owner, key_of, routes, world, env, clock):
                 hc.delete(key)
             elif opn == "incr":
                 hc.incr(key, 1)
+            elif opn == "incr_text":
+                # the server answers with an error line of its own (the item is not a number): the call fails with that error,
+                # the server has not failed
+                hc.set(key, "abc")
+                try:
+                    hc.incr(key, 1)
+                except MemcacheClientError:
+                    pass
+                hc.set(key, "1")
             elif opn == "get_many":
                 hc.get_many(list(owner))
             elif opn == "set_many":
@@ -376,7 +387,7 @@ def _run(case, hc, servers, names, owner, key_of, routes, world, env, clock):
         if exc is not None:
             if ie:
                 V("escape-with-ignore_exc", "%r escaped %s(%r) although ignore_exc is set" % (exc, opn, key))
-            own_error = any(exc is f for f in world["failing"].values()) or (env is not None and isinstance(exc, OSError))
+            own_error = any(exc is f for f in world["failing"].values()) or (env is not None and isinstance(exc, OSError) and bool(world["failing"]))
             if not (own_error or (isinstance(exc, MemcacheError) and "All servers" in str(exc))):
                 V("internal-error", "%s(%r) raised %r, neither the failing server's error nor 'all servers down'" % (opn, key, exc))
         if env is None:
@@ -396,6 +407,8 @@ def _run(case, hc, servers, names, owner, key_of, routes, world, env, clock):
                 V("routing", "routing decision for %r over rotation %r chose %r, placement gives %r" % (k, list(rot), node, want))
         if opn == "set_many_mixed":
             pass          # two keys, possibly two servers while one is out: only the bounds, routing and eviction rules apply
+        elif opn == "incr_text":
+            pass          # three calls on one key: the bounds, routing and eviction rules apply
         elif opn in ("get", "set", "delete", "incr"):
             if len(rt) != 1:
                 V("routing-count", "%s(%r) made %d routing decisions" % (opn, key, len(rt)))
@@ -569,12 +582,20 @@ def real_train_cases(tier, seed):
             for ie in (False, True):
                 for n in range(1, depth + 1):
                     for gaps in itertools.product(range(3), repeat=n):
-                        opn = ("get", "set", "incr", "get_many", "set_many_mixed")[(sum(gaps) + n + ra) % 5]
+                        opn = ("get", "set", "incr", "get_many", "set_many_mixed", "incr_text")[(sum(gaps) + n + ra) % 6]
                         ev = [["fail", 0, kind], ["op", opn, 0]]
                         for g in gaps:
                             ev += [["adv", GAPS[g]], ["op", opn, 0]]
                         yield {"servers": 2 + (n + ra) % 2, "retry_attempts": ra, "ignore_exc": ie, "backend": "real", "recovery_step": 7, "events": ev,
-                               "recovery_op": ("get", "set_many", "get_many")[(sum(gaps) + n) % 3], "aws": bool((sum(gaps) + n + ra + ie) % 2)}
+                               "recovery_op": ("get", "set_many", "get_many")[(sum(gaps) + n) % 3], "aws": bool((sum(gaps) + n + ra + ie) % 2),
+                               "dialect": ["hangup-after-error"] if (sum(gaps) + ra) % 2 else None}
+    # a healthy server that answers with error lines (and hangs up after each): it has not failed
+    for ra in (0, 1, 2):
+        for ie in (False, True):
+            for ns_ in (1, 2):
+                for dia in (None, ["hangup-after-error"]):
+                    ev = [["op", "incr_text", 0], ["op", "get", 0], ["op", "incr_text", 0], ["adv", 0.5], ["op", "set", 0], ["op", "incr_text", 1 % ns_], ["op", "get_many", 0], ["adv", 1.5], ["op", "get", 0]]
+                    yield {"servers": ns_, "retry_attempts": ra, "ignore_exc": ie, "backend": "real", "recovery_step": 7, "events": ev, "dialect": dia, "aws": bool(ra % 2)}
 
 
 def lifecycle_train_cases(tier, seed):
@@ -602,7 +623,7 @@ def minimise(case, still_fails):
 
 
 def history_strategy(tier):
-    opn = st.sampled_from(["get", "set", "delete", "incr", "get_many", "set_many", "set_many_mixed"])
+    opn = st.sampled_from(["get", "set", "delete", "incr", "get_many", "set_many", "set_many_mixed", "incr_text"])
     ev = st.one_of(
         st.tuples(st.just("op"), opn, st.integers(0, 2)).map(list),
         st.tuples(st.just("op"), opn, st.integers(0, 2)).map(list),
@@ -610,7 +631,7 @@ def history_strategy(tier):
         st.tuples(st.just("fail"), st.integers(0, 2), st.sampled_from(sorted(ERR))).map(list),
         st.tuples(st.just("heal"), st.integers(0, 2)).map(list))
     return st.fixed_dictionaries({"servers": st.sampled_from([1, 2, 2, 3]), "recovery_op": st.sampled_from(["get", "set_many", "get_many", "delete"]), "hasher": st.sampled_from(["subclass", "minimal"]), "retry_attempts": st.sampled_from([0, 1, 2]), "ignore_exc": st.booleans(),
-                                  "backend": st.sampled_from(["scripted", "scripted", "real"]), "aws": st.booleans(), "addr_style": st.sampled_from([0, 0, 1, 2, 3]), "events": st.lists(ev, min_size=1, max_size=40)})
+                                  "backend": st.sampled_from(["scripted", "scripted", "real"]), "aws": st.booleans(), "addr_style": st.sampled_from([0, 0, 1, 2, 3]), "dialect": st.sampled_from([None, None, ["hangup-after-error"]]), "events": st.lists(ev, min_size=1, max_size=40)})
 
 
 # ---- two users of one hash client --------------------------------------------------------------------------------------
